@@ -1,4 +1,5 @@
 import JellyModel.Parse
+import JellyProofs.Lemmas.RowBracket
 /-!
 # Framing lemmas (used by C07)
 
@@ -287,17 +288,17 @@ theorem epilogue_err_fr (r : Run) (fromDataset : Bool) : (epilogue r fromDataset
 
 /-! ## Writer side: flows that are not bounded -/
 
-theorem encodeTriple_ok_ne_nil (exc : PyErr) (st st' : EncState) (terms : List Term) (rows : List Row)
-    (h : encodeTriple exc st terms = (st', .ok rows)) : rows ≠ [] := by
+theorem encodeTripleBody_ok_ne_nil (exc : PyErr) (st st' : EncState) (terms : List Term) (rows : List Row)
+    (h : encodeTripleBody exc st terms = (st', .ok rows)) : rows ≠ [] := by
   rcases terms with _ | ⟨a, _ | ⟨b, _ | ⟨c, rest⟩⟩⟩
-  · simp [encodeTriple] at h
-  · simp only [encodeTriple] at h
+  · simp [encodeTripleBody] at h
+  · simp only [encodeTripleBody] at h
     split at h <;> simp at h
-  · simp only [encodeTriple] at h
+  · simp only [encodeTripleBody] at h
     split at h
     · simp at h
     · split at h <;> simp at h
-  · simp only [encodeTriple] at h
+  · simp only [encodeTripleBody] at h
     split at h
     · simp at h
     · split at h
@@ -306,23 +307,28 @@ theorem encodeTriple_ok_ne_nil (exc : PyErr) (st st' : EncState) (terms : List T
         · simp at h
         · simp only [Prod.mk.injEq, Except.ok.injEq] at h; rw [← h.2]; simp
 
-theorem encodeQuad_ok_ne_nil (exc : PyErr) (st st' : EncState) (terms : List Term) (rows : List Row)
-    (h : encodeQuad exc st terms = (st', .ok rows)) : rows ≠ [] := by
+theorem encodeTriple_ok_ne_nil (exc : PyErr) (st st' : EncState) (terms : List Term) (rows : List Row)
+    (h : encodeTriple exc st terms = (st', .ok rows)) : rows ≠ [] := by
+  obtain ⟨_, st1, hb, _⟩ := encodeTriple_ok_inv h
+  exact encodeTripleBody_ok_ne_nil exc _ st1 terms rows hb
+
+theorem encodeQuadBody_ok_ne_nil (exc : PyErr) (st st' : EncState) (terms : List Term) (rows : List Row)
+    (h : encodeQuadBody exc st terms = (st', .ok rows)) : rows ≠ [] := by
   rcases terms with _ | ⟨a, _ | ⟨b, _ | ⟨c, _ | ⟨g, rest⟩⟩⟩⟩
-  · simp [encodeQuad] at h
-  · simp only [encodeQuad] at h
+  · simp [encodeQuadBody] at h
+  · simp only [encodeQuadBody] at h
     split at h <;> simp at h
-  · simp only [encodeQuad] at h
+  · simp only [encodeQuadBody] at h
     split at h
     · simp at h
     · split at h <;> simp at h
-  · simp only [encodeQuad] at h
+  · simp only [encodeQuadBody] at h
     split at h
     · simp at h
     · split at h
       · simp at h
       · split at h <;> simp at h
-  · simp only [encodeQuad] at h
+  · simp only [encodeQuadBody] at h
     split at h
     · simp at h
     · split at h
@@ -332,6 +338,11 @@ theorem encodeQuad_ok_ne_nil (exc : PyErr) (st st' : EncState) (terms : List Ter
         · split at h
           · simp at h
           · simp only [Prod.mk.injEq, Except.ok.injEq] at h; rw [← h.2]; simp
+
+theorem encodeQuad_ok_ne_nil (exc : PyErr) (st st' : EncState) (terms : List Term) (rows : List Row)
+    (h : encodeQuad exc st terms = (st', .ok rows)) : rows ≠ [] := by
+  obtain ⟨_, st1, hb, _⟩ := encodeQuad_ok_inv h
+  exact encodeQuadBody_ok_ne_nil exc _ st1 terms rows hb
 
 /-- A successful `Stream.triple` on a flow that is not bounded yields no frame and leaves a
     non-empty flow (at least the statement row was appended). -/
